@@ -1613,6 +1613,19 @@ pub(crate) fn compile_ast_to_ir_to_asm(
         }
     }
 
+    // Verification hook H1: substitute the pass list by the one named in the environment.
+    #[cfg(fuellabs_sway_verif)]
+    if let Ok(list) = std::env::var("SWAY_VERIF_PASSES") {
+        let mut group = PassGroup::default();
+        for name in list.split(',').map(str::trim).filter(|n| !n.is_empty()) {
+            match pass_mgr.lookup_registered_pass(name) {
+                Some(pass) => group.append_pass(pass.name),
+                None => panic!("SWAY_VERIF_PASSES: unknown pass {name}"),
+            }
+        }
+        pass_group = group;
+    }
+
     // Run the passes.
     let mut options: Options = (&build_config.print_ir).into();
 
@@ -1808,6 +1821,8 @@ fn check_should_abort(
     retrigger_compilation: Option<Arc<AtomicBool>>,
 ) -> Result<(), ErrorEmitted> {
     if let Some(ref retrigger_compilation) = retrigger_compilation {
+        #[cfg(fuellabs_sway_verif)]
+        sway_utils::verif::step("W.check", "");
         if retrigger_compilation.load(Ordering::SeqCst) {
             return Err(handler.cancel());
         }
